@@ -393,7 +393,7 @@ def rule_numfmt(prog, rep):
         if not ok and len(aggs) == 1 and len(aggs[0][1][2][2]) == 1:
             # the same thing spelt `format!("{value}")` / `format!("{}", value)`: Display, no options
             t2 = fn.sym(aggs[0][1][2][2][0])
-            if re.fullmatch(r'hint::must_use\(fmt::format\(Arguments::new\(&const:\*b"\\xc0\\x00", &array\(Argument::new_display\(&\*tuple\(&arg1\)\.0\)\)\)\)\)', t2):
+            if re.fullmatch(r'hint::must_use\(fmt::format\(Arguments::new\(&const:\*b"\\xc0\\x00", &array\(Argument::new_display\((&\*tuple\(&arg1\)\.0|&arg1)\)\)\)\)\)', t2):
                 ok, text = True, t2
         why = ""
         if not ok:
